@@ -11,8 +11,8 @@ from ..core import hx
 
 LOCALES = ["pl", "en-US", "de", "fr", "sr-Cyrl", "en", "ja-JP"]
 IDS = ["k0", "k1", "k2", "k3", "k4"]
-STATES = "mpanxezy"
-HAS_VALUE = set("paxez")
+STATES = "mpanxezyr"
+HAS_VALUE = set("paxezr")
 CARRIED = {0: [], 1: ["B(Overriding.message.dup)"], 2: ["B(Parser)"],
            3: ["B(Parser)", "B(Overriding.message.dup)"], 4: []}
 
@@ -37,6 +37,8 @@ def value_of(st, loc, mid, args):
     if st == "z":
         t, e = var_part(args)
         return "Z %s %s" % (sfx, t), e
+    if st == "r":
+        return "R " + sfx, []
     return None
 
 
@@ -52,6 +54,10 @@ def attrs_of(st, loc, mid, args):
     if st == "y":
         t, e = var_part(args)
         return [("t", "YT %s %s" % (sfx, t), e)]
+    if st == "r":
+        # the attribute name `t` twice: both are handed over, in source order
+        t, e = var_part(args)
+        return [("t", "RT " + sfx, []), ("u", "RU " + t, e), ("t", "RV {-nope}", ["Term.nope"])]
     return []
 
 
